@@ -195,10 +195,10 @@ def r3_chain(chk, prog):
         n = len(mctx.calls(CFT))
         chk.floor("R3-files", n, 4, "metadata copies (snapshot, targets, timestamp, delegated)")
         okb = mctx.ok_return_blocks()
-        for bb, t in mctx.calls(CFT):
+        for k_, (bb, t) in enumerate(sorted(mctx.calls(CFT), key=lambda x: (x[1].sp["l"], x[1].sp.get("c", 0)))):
             neg = mctx.track_call(bb).neg_edges(0)
             r = mctx.cfg.reach_from_edges(neg) if neg else set()
-            chk.require(bool(neg) and not (r & set(okb)), "R3", mctx.fn, "copy-error-propagates@L%d" % t.sp["l"],
+            chk.require(bool(neg) and not (r & set(okb)), "R3", mctx.fn, "copy-error-propagates#%d" % k_,
                         "a failing metadata copy does not fail the caching", mctx.site(bb))
     rctx = ctx_of(prog, "tough::schema::Targets::role_names")
     if rctx is not None:
